@@ -28,6 +28,14 @@ open PsdVerif
 
 abbrev B := List UInt8
 
+/-- results of readers/writers can be compared by `decide` (concrete witnesses in Props) -/
+instance instDecidableEqExcept {ε α : Type} [DecidableEq ε] [DecidableEq α] : DecidableEq (Except ε α) := fun a b =>
+  match a, b with
+  | .ok x, .ok y => if h : x = y then isTrue (by rw [h]) else isFalse (by intro e; cases e; exact h rfl)
+  | .error x, .error y => if h : x = y then isTrue (by rw [h]) else isFalse (by intro e; cases e; exact h rfl)
+  | .ok _, .error _ => isFalse (by intro e; cases e)
+  | .error _, .ok _ => isFalse (by intro e; cases e)
+
 /-- the cursor machine -/
 abbrev R (α : Type) := B → Nat → Except Err (α × Nat)
 
